@@ -31,24 +31,26 @@ Definition counter_step (i : N) (v : N) (o : op) : N :=
   end.
 Definition spec_counter (i : N) (pre : list op) : N := fold_left (counter_step i) pre 0.
 
-Definition gauge_step (i : N) (v : Z) (o : op) : Z :=
+Definition gauge_step (i : N) (v : xnum) (o : op) : xnum :=
   match o with
   | GSet j x => if j =? i then x else v
-  | GInc j x => if j =? i then (v + x)%Z else v
-  | GDec j x => if j =? i then (v - x)%Z else v
+  | GInc j x => if j =? i then xadd v x else v
+  | GDec j x => if j =? i then xadd v (xneg x) else v
   | _ => v
   end.
-Definition spec_gauge (i : N) (pre : list op) : Z := fold_left (gauge_step i) pre 0%Z.
+Definition spec_gauge (i : N) (pre : list op) : xnum := fold_left (gauge_step i) pre xzero.
 
 Definition raw_step (i : N) (v : N) (o : op) : N :=
   match o with GBits j b => if j =? i then b else v | _ => v end.
 Definition spec_raw (i : N) (pre : list op) : N := fold_left (raw_step i) pre 0.
 
 (* the samples recorded under key i, in order *)
-Definition rec_of (i : N) (o : op) : list Z :=
+Definition rec_of (i : N) (o : op) : list xnum :=
   match o with Rec j v => if j =? i then [v] else [] | _ => [] end.
-Definition records (i : N) (pre : list op) : list Z := flat_map (rec_of i) pre.
-Definition zsum (l : list Z) : Z := fold_right Z.add 0%Z l.
+Definition records (i : N) (pre : list op) : list xnum := flat_map (rec_of i) pre.
+(* the sum of the samples: componentwise, i.e. the exact finite part and the special values that went in;
+   shown as the double it denotes ([xval]): NaN / +inf / -inf / the exact finite sum *)
+Definition xsum (l : list xnum) : xnum := fold_right xadd xzero l.
 
 (* the first description given for a (sanitised) name *)
 Fixpoint spec_desc (name : str) (pre : list op) : option (str * option unit_t) :=
@@ -88,20 +90,20 @@ Definition spec_key (c : cfg) (pre : list op) (i : N) (k : key) : list asample :
   let labels := map label_string (spec_labels (c_globals c) (k_labels k)) in
   match k_kind k with
   | KC => [mk_sample name help u 0 labels None XNone (VInt (spec_counter i pre))]
-  | KG => [mk_sample name help u 1 labels None XNone (VZ (spec_gauge i pre))]
+  | KG => [mk_sample name help u 1 labels None XNone (xval (spec_gauge i pre))]
   | KR => [mk_sample name help u 1 labels None XNone (canon (spec_raw i pre))]
   | KH =>
       let rs := records i pre in
       let n := N.of_nat (List.length rs) in
       match H.get_distribution ZF (dbuilder_of c) name with
       | Some bounds =>
-          map (fun b => mk_sample name help u 2 labels (Some s_bucket) (XLe b) (VInt (MV.C15.Spec.count_le ZF b rs))) bounds
+          map (fun b => mk_sample name help u 2 labels (Some s_bucket) (XLe (x_fin b)) (VInt (MV.C15.Spec.count_le ZF b rs))) bounds
           ++ [mk_sample name help u 2 labels (Some s_bucket) XInf (VInt n);
-              mk_sample name help u 2 labels (Some s_sum) XNone (VZ (zsum rs));
+              mk_sample name help u 2 labels (Some s_sum) XNone (xval (xsum rs));
               mk_sample name help u 2 labels (Some s_count) XNone (VInt n)]
       | None =>
           map (fun q => mk_sample name help u 3 labels None (XQuant q) VQ) (c_quantiles c)
-          ++ [mk_sample name help u 3 labels (Some s_sum) XNone (VZ (zsum rs));
+          ++ [mk_sample name help u 3 labels (Some s_sum) XNone (xval (xsum rs));
               mk_sample name help u 3 labels (Some s_count) XNone (VInt n)]
       end
   end.
